@@ -679,8 +679,7 @@ CONTROLS = (("FeeRecipientMC_ctl_noApiVerify.cfg", "HeldValid", "the node keeps 
 QUICK_MC = ["FeeRecipientMC_core.cfg", "FeeRecipientMC_twofr.cfg", "FeeRecipientMC_byz.cfg", "FeeRecipientMC_now.cfg", "FeeRecipientMC_gas.cfg",
             "FeeRecipientMC_two.cfg", "FeeRecipientMC_bad.cfg", "FeeRecipientMC_list.cfg", "FeeRecipientMC_plant.cfg", "FeeRecipientMC_timer.cfg",
             "FeeRecipientMC_strict.cfg", "FeeRecipientMC_four.cfg", "FeeRecipientMC_live.cfg"]
-THOROUGH_MC = QUICK_MC + ["FeeRecipientMC_core_thorough.cfg", "FeeRecipientMC_twofr_thorough.cfg", "FeeRecipientMC_two_thorough.cfg",
-                          "FeeRecipientMC_now_thorough.cfg"]
+THOROUGH_MC = QUICK_MC + ["FeeRecipientMC_%s_thorough.cfg" % c for c in ("core", "twofr", "byz", "two", "now", "gas", "four", "strict", "bad", "list", "timer")]
 GEN = ["core", "small", "two", "gas", "now", "list", "dup"]
 
 
@@ -735,11 +734,11 @@ def stage(o, tier, seed):
     confirm_deviations(o)
     r = vlib.rng(seed, "feerecipient-gen")
     gen = []
-    per = 400 if thorough else 35
+    per = 400 if thorough else 25
     for hs in hists:
         r.shuffle(hs)
         gen += [from_hist(h) for h in hs[:per]]
-    rnd = random_schedules(seed, 3000 if thorough else 400, thorough)
+    rnd = random_schedules(seed, 3000 if thorough else 300, thorough)
     o.extra["feerecipient_histories_by_tlc"] = len(gen)
     kw = dict(chunk=100, exec_timeout=1500, tv_timeout=1500, env={"VERIF_FEEREC_PAR": "6"})
     vlib.conformance(o, FAMILY, TRACE, cfg_of, PKG, gen, tag="frgen", **kw)
